@@ -105,4 +105,25 @@ theorem wide_tail (tm : Mode) (N d : Int) (n : Nat) (hd : 0 < d) (hdu : d ≤ I1
         · rw [fitsI128_iff] at hh; omega
       simp [hm, hnf, Spec.allowedChecked]
 
+/-- `wide_tail` with the operands of `round_quot` written as magnitudes (`rem.unsigned_abs()`, `divisor.unsigned_abs()`: the form of
+    `i128_shifted_div_rounded` after the D13 repair) -/
+theorem wide_tail_abs (tm : Mode) (N d : Int) (n : Nat) (hd : 0 < d) (hdu : d ≤ I128_MAX) :
+    Spec.allowedChecked (Spec.valFit (Spec.specRound tm N d) n)
+      (outOptPair (.ok (
+        (if (N.natAbs / d.natAbs : Nat) ≤ I128_MAX.toNat then some (N / d, N % d) else none).bind fun qr =>
+          (roundQuot tm qr.1 qr.2.natAbs d.natAbs none).map fun c => (⟨c, n⟩ : Dec)))) = true := by
+  have h1 := Int.emod_nonneg N (Int.ne_of_gt hd)
+  have key := wide_tail tm N d n hd hdu
+  have ea : (IntTy.u128.cast (N % d)).toNat = (N % d).natAbs := by
+    have h2 := Int.emod_lt_of_pos N hd
+    rw [cast_u128_nonneg h1 (by omega)]; omega
+  have eb : (IntTy.u128.cast d).toNat = d.natAbs := by
+    rw [cast_u128_nonneg (Int.le_of_lt hd) hdu]; omega
+  by_cases ht : (N.natAbs / d.natAbs : Nat) ≤ I128_MAX.toNat
+  · simp only [ht, if_true, Option.bind_some] at key ⊢
+    rw [ea, eb] at key
+    exact key
+  · simp only [ht, if_false, Option.bind_none] at key ⊢
+    exact key
+
 end Fpdec
